@@ -34,6 +34,7 @@ import (
 	"github.com/google/gce-tcb-verifier/storage/storagei"
 	"github.com/google/gce-tcb-verifier/testing/nonprod/localca"
 	"github.com/google/gce-tcb-verifier/testing/nonprod/localkm"
+	"github.com/google/gce-tcb-verifier/testing/nonprod/localnonvcs"
 	"github.com/google/gce-tcb-verifier/testing/nonprod/memkm"
 	"google.golang.org/protobuf/encoding/prototext"
 )
@@ -294,6 +295,7 @@ func (w *World) CLI(args ...string) (err error) {
 	km, ca := w.components()
 	app := &cmd.AppComponents{
 		Global:          cmd.Compose(km, ca),
+		Endorse:         &localnonvcs.T{},
 		Bootstrap:       &cmd.PartialComponent{},
 		SignatureRandom: rand.Reader,
 	}
